@@ -861,6 +861,34 @@ theorem C02_maximal_run_completes (w0 : World) (h0 : w0.flows = [])
   rw [hrun] at hd hdc hds hcb ⊢
   exact C02_no_stuck_state w0 h0 hf (pre ++ steps) hd hdc hds hcb
 
+/-- The same with the conclusion spelled out — C01's "everything written before the close is
+eventually delivered" and C02's teardown in one statement: after any history `pre`, let the loop run
+effective moves until none is left; that takes at most `worldMu` moves, and then every endpoint
+still open has received exactly what the tunnel read from its peer, and every close has reached the
+other endpoint's socket. -/
+theorem C02_maximal_run_delivers (w0 : World) (h0 : Fresh w0)
+    (hf : w0.cm.tooFull = false ∧ w0.sm.tooFull = false) (pre steps : List Step)
+    (hg : ∀ st ∈ pre ++ steps, GoodStep st) (hn : (chans (w0.run (pre ++ steps))).Nodup)
+    (hall : ∀ st ∈ steps, LoopMove st) (heff : Effective (w0.run pre) steps)
+    (hd : ((w0.run pre).run steps).died = none)
+    (hdc : ((w0.run pre).run steps).step (.deliver .client .ok) = (w0.run pre).run steps)
+    (hds : ((w0.run pre).run steps).step (.deliver .server .ok) = (w0.run pre).run steps)
+    (hcb : ∀ e i, ((w0.run pre).run steps).step (.cb e i fullIo) = (w0.run pre).run steps) :
+    steps.length ≤ worldMu (w0.run pre) ∧
+    ∀ f ∈ ((w0.run pre).run steps).flows,
+      (f.dst.sawShut = false → f.app.consumed = f.dst.delivered) ∧
+      (f.app.sawShut = false → f.dst.consumed = f.app.delivered) ∧
+      (f.app.eofIn = true → f.app.pending = [] → f.dst.sawShut = true) ∧
+      (f.dst.eofIn = true → f.dst.pending = [] → f.app.sawShut = true) := by
+  obtain ⟨hlen, hq⟩ := C02_maximal_run_completes w0 h0.1 hf pre steps hall heff hd hdc hds hcb
+  refine ⟨hlen, ?_⟩
+  have hrun : (w0.run pre).run steps = w0.run (pre ++ steps) := by
+    simp only [World.run, List.foldl_append]
+  rw [hrun] at hd hq ⊢
+  intro f hfm
+  obtain ⟨_, a, b, c, d, _⟩ := C02_quiet_complete w0 h0 (pre ++ steps) hg hn hd hq f hfm
+  exact ⟨a, b, c, d⟩
+
 /-- The measure never goes up along the loop's own moves, effective or not. -/
 theorem C02_measure_monotone (w : World) (steps : List Step) (hall : ∀ st ∈ steps, LoopMove st) :
     worldMu (w.run steps) ≤ worldMu w := by
